@@ -36,7 +36,16 @@ def gen_doc(rnd):
 
 def gen_query(rnd):
     k = rnd.choice(["where", "select", "select2", "having", "cte", "derived", "subq", "union", "insubq", "exists", "where+select",
-                    "join-on", "join-on"])
+                    "join-on", "join-on", "once-select", "once-where", "once-subq"])
+    # ONCE is a synchronous strategy: the single invocation's failure is the query's failure, whatever rows reuse it
+    FO = lambda e: ["func", "once", "vf_fail", [e]]
+    if k == "once-select":
+        return k, select([item(FO(num(7)), "v"), item(col("a"))], table("t"))
+    if k == "once-where":
+        return k, select([item(col("id"))], table("t"), wh=["cmp", "ge", FO(num(7)), num(0)])
+    if k == "once-subq":
+        sub = select([item(FO(["bin", "plus", col("id"), num(0)]), "v")], table("dual"))
+        return k, select([item(col("id")), item(["subq", sub], "sub")], table("t"))
     if k == "join-on":
         # a user function as a boolean conjunct of a non-equi ON: evaluated once per pair of key groups by the nested loop
         sp = rnd.choice(["JOIN", "LEFT JOIN", "RIGHT JOIN", "PARALLEL JOIN", "PARALLEL JOIN", "PARALLEL JOIN", "PARALLEL LEFT JOIN",
@@ -91,6 +100,9 @@ OTHER_FAILS = [
     ("type-error-union", "SELECT a FROM t UNION SELECT m + 'x' AS a FROM u"),
     ("group-by-expr", "SELECT COUNT(*) AS n FROM t GROUP BY a + 1"),
     ("err-fn", "SELECT id, VF_ERR(a = 2) AS v FROM t"),
+    ("once-raise", "SELECT id, ONCE.RAISE('boom') FROM t"),
+    ("once-err-fn", "SELECT id, ONCE.VF_ERR(TRUE) AS v FROM t"),
+    ("once-err-where", "SELECT id FROM t WHERE ONCE.VF_ERR(TRUE) IS NULL"),
 ]
 
 
